@@ -67,18 +67,21 @@ func build(expr logql.Expr, sel SampleSelector, params EvalParams) (_ StepIterat
 	case *logql.VectorExpr:
 		return Vector(expr, params.Start, params.End, params.Step), nil
 	case *logql.BinOpExpr:
-		if lit, ok := expr.Left.(*logql.LiteralExpr); ok {
+		// Literal may be parenthesized.
+		if lit, ok := logql.UnparenExpr(expr.Left).(*logql.LiteralExpr); ok {
 			right, err := build(expr.Right, sel, params)
 			if err != nil {
 				return nil, err
 			}
+			defer closeOnError(right)
 			return LiteralBinOp(right, expr, lit.Value, true)
 		}
-		if lit, ok := expr.Right.(*logql.LiteralExpr); ok {
+		if lit, ok := logql.UnparenExpr(expr.Right).(*logql.LiteralExpr); ok {
 			left, err := build(expr.Left, sel, params)
 			if err != nil {
 				return nil, err
 			}
+			defer closeOnError(left)
 			return LiteralBinOp(left, expr, lit.Value, false)
 		}
 
